@@ -363,3 +363,15 @@ Proof.
     congruence.
   - intros ->. exact (proj1 (tier_complete_all_delivered _ _ _ _ _ _ _ H0)).
 Qed.
+
+(* collected statement about one shard (Props.C16_deadline_shard) *)
+Lemma deadline_shard : forall d sh t,
+  (cancelled d t = true -> tsearch_shard d t sh = TSR SFail t)
+  /\ (forall r t', tsearch_shard d t sh = TSR r t' -> decisive r = true ->
+        cancelled d t' = false /\ tsearch_shard None t sh = TSR r t')
+  /\ (expires_before d t sh = false -> tsearch_shard d t sh = natural t sh)
+  /\ (expires_before d t sh = true -> delivered_answer d t sh = false).
+Proof.
+  intros d sh t. split; [exact (shard_cancelled d sh t)|]. split; [exact (shard_decisive_natural d sh t)|].
+  split; [exact (shard_not_expired d sh t) | exact (expired_not_delivered d t sh)].
+Qed.
